@@ -9,6 +9,7 @@ import (
 	"time"
 
 	"github.com/anishathalye/porcupine"
+	"github.com/netflix/rend/handlers"
 	"github.com/netflix/rend/handlers/inmem"
 
 	"verif/refmodel"
@@ -36,11 +37,42 @@ type inmemResult struct {
 	MaxVal   int
 }
 
+// inmemForceFree reports whether the shared backend's lock is held although no command is
+// running, and releases it in that case (so that the worker can go on after reporting the leak).
+func inmemForceFree(h handlers.Handler) bool {
+	mu, _ := inmem.VerifMutex(h)
+	t, ok := mu.(interface {
+		TryLock() bool
+		Unlock()
+	})
+	if !ok {
+		return false
+	}
+	if t.TryLock() {
+		t.Unlock()
+		return false
+	}
+	for i := 0; i < 64 && !t.TryLock(); i++ {
+		if rw, ok := mu.(interface {
+			TryRLock() bool
+			RUnlock()
+		}); ok && rw.TryRLock() { // held by readers
+			rw.RUnlock()
+			rw.RUnlock()
+		} else {
+			t.Unlock()
+		}
+	}
+	t.Unlock()
+	return true
+}
+
 // RunInmemSeq runs a sequential history against the singleton (reset first) and the model.
 func RunInmemSeq(sc InmemScenario) *inmemResult {
 	res := &inmemResult{}
 	h0, _ := inmem.New()
 	inmem.VerifReset(h0)
+	inmemForceFree(h0)
 	m := refmodel.New(uint32(time.Now().Unix()))
 	for i, op := range sc.Ops {
 		if op.Kind == "advance" {
@@ -62,6 +94,12 @@ func RunInmemSeq(sc InmemScenario) *inmemResult {
 			}
 		}
 		res.Results = append(res.Results, r.String())
+		// a command that has returned holds nothing: the next command of any connection can take
+		// the backend's lock (probed on the real lock; a leak would make every later command wait)
+		if inmemForceFree(h) {
+			res.Findings = append(res.Findings, Finding{Sig: fmt.Sprintf("C17 lock-leaked op=%s", op.Kind), What: fmt.Sprintf("op %d (%s) returned with the shared backend's lock still held: every later command of every connection waits for ever", i, op), Clause: "lock-leaked", OpIdx: i})
+			break
+		}
 		if c, d := DiffH(e, r); c != "" {
 			res.Findings = append(res.Findings, Finding{Sig: fmt.Sprintf("C17 %s op=%s", c, op.Kind), What: fmt.Sprintf("op %d (%s): %s", i, op, d), Clause: c, OpIdx: i})
 			break
@@ -86,6 +124,12 @@ func inmemAlphabet() []wire.Op {
 		{Kind: "replace", Key: "a", Val: "q", Flags: 3, TTL: 5},
 		{Kind: "append", Key: "a", Val: "s"},
 		{Kind: "prepend", Key: "a", Val: "t"},
+		// empty data: nothing to copy, same outcome rules
+		{Kind: "append", Key: "a", Val: ""},
+		{Kind: "prepend", Key: "a", Val: ""},
+		{Kind: "set", Key: "a", Val: "", Flags: 9, TTL: 0},
+		{Kind: "add", Key: "b", Val: "", Flags: 4, TTL: 5},
+		{Kind: "replace", Key: "a", Val: "", Flags: 6, TTL: 0},
 		{Kind: "delete", Key: "a"},
 		{Kind: "touch", Key: "a", TTL: 5},
 		{Kind: "touch", Key: "a", TTL: 0},
@@ -138,6 +182,7 @@ func runInmemConc(sc InmemScenario, prefix []int) *inmemConc {
 	res := &inmemConc{}
 	h, _ := inmem.New()
 	inmem.VerifReset(h)
+	inmemForceFree(h) // a lock leaked by an earlier execution has been reported there
 	init := map[string]kvState{}
 	m := refmodel.New(uint32(time.Now().Unix()))
 	for _, op := range sc.Ops {
@@ -313,6 +358,7 @@ func runC17(c *rt.Ctx) {
 			{Kind: "append", Key: "a", Val: "+" + tag}, {Kind: "delete", Key: "a"}, {Kind: "touch", Key: "a", TTL: 0}, {Kind: "gat", Key: "a", TTL: 0},
 			{Kind: "replace", Key: "a", Val: "R" + tag, Flags: 4},
 			{Kind: "prepend", Key: "a", Val: tag + "+"},
+			{Kind: "append", Key: "a", Val: ""}, {Kind: "prepend", Key: "a", Val: ""}, {Kind: "set", Key: "a", Val: "", Flags: 5},
 		}
 	}
 	item := 0
